@@ -161,6 +161,28 @@ WRAPPERS = ("std::ops::Try::branch", "std::future::IntoFuture::into_future", "st
             "std::option::Option::<T>::ok_or", "std::option::Option::<T>::ok_or_else", "std::result::Result::<T, E>::map", "std::result::Result::<T, E>::ok")
 
 
+_world = None     # set by flow.World: lets term-level helpers look into closure bodies
+
+
+def _effect_closure_ret(t):
+    """t = opt.map(closure) / opt.and_then(closure) with a closure that performs an environment effect -> the closure's
+    return-value term; otherwise None."""
+    from .core import BV
+    while t[0] in ("ref", "deref"):
+        t = t[1]
+    if _world is None or t[0] != "call" or norm(t[1]).split("::")[-1] not in ("map", "and_then") or "option::Option" not in norm(t[1]) or len(t[2]) != 2:
+        return None
+    x = t[2][1]
+    while x[0] in ("ref", "deref"):
+        x = x[1]
+    if not (x[0] == "agg" and x[1] == "closure" and x[2] in _world.by_id):
+        return None
+    cb = BV.of(_world.by_id[x[2]])
+    if not any(tt.get("trait") and "::" in (tt.get("trait") or "") and tt.get("trait").split("::")[0] in ("cup_ecdsa", "policy", "installer", "storage", "http_request", "time", "metrics", "app_set") for _, tt in cb.calls()):
+        return None
+    return cb.trace_local(0)
+
+
 def head_call(t):
     """The call that produced a value, looking through await / ? / projections / map_err."""
     for _ in range(64):
@@ -171,6 +193,13 @@ def head_call(t):
             continue
         if t[0] == "call" and t[1] in WRAPPERS and t[2]:
             t = t[2][0]
+            continue
+        if t[0] == "call" and norm(t[1]).endswith("::transpose") and t[2] and _effect_closure_ret(t[2][0]) is not None:
+            t = t[2][0]
+            continue
+        if t[0] == "call" and _effect_closure_ret(t) is not None:
+            # `opt.map(|x| env_call(x))`: the value is produced by the effectful call inside the closure
+            t = _effect_closure_ret(t)
             continue
         if t[0] == "phi":
             hs = set(head_call(x) for x in t[1])
@@ -446,3 +475,16 @@ def builder_setters_preserve(R, rule, W, c, fields):
             R.check(rule, "setter-preserves:%s:%s" % (b.get("item"), f), from_self or from_param, "%s() keeps the configured %s" % (b.get("item"), f),
                     "StateMachineBuilder::%s() replaces the configured %s by %s: a builder configured in another order silently loses it" % (b.get("item"), f, v[:80]), loc(bv, 0))
     R.floor(rule, "builder setters carrying the field over", n, 3)
+
+
+def calls_verify_response(bv, deep=True):
+    """Does this body call Cupv2RequestHandler::verify_response — itself, or (deep) in a closure it creates (the
+    verification handed to `Option::map`)?  The exchange function is the coroutine for which this holds."""
+    from .core import BV
+    if any(t.get("trait") == "cup_ecdsa::Cupv2RequestHandler" and t.get("name") == "verify_response" for _, t in bv.calls()):
+        return True
+    if deep:
+        for cb in closures_of(bv.crate, bv.id):
+            if cb.get("kind") == "closure" and calls_verify_response(BV.of(cb), True):
+                return True
+    return False
